@@ -107,7 +107,7 @@ def assignments(desc):
 
 def constraint_ok(desc, a):
     for ctype, cids in desc.constraints:
-        idx = [(desc.choice(cid).options.index(a[cid])) for cid in cids if cid in a]
+        idx = [(desc.choice(cid).options.index(a[cid])) for cid in cids if cid in a]   # DV names are never in `a`
         if len(idx) < 2:
             continue
         if ctype == 'LINKED' and len(set(idx)) != 1:
